@@ -79,6 +79,7 @@ type gstruct struct {
 	MPtrRecv  bool // MarshalJSON only on the pointer receiver
 	Hook      string
 	Unhook    string
+	Shadow    [][]string // selector paths (explicit about embedded fields) written by MarshalJSON before marshalling: shadow copies
 }
 
 type graph struct {
@@ -878,9 +879,35 @@ func walkTypes(repo string) *graph {
 	return g
 }
 
+// shadowPaths: every selector path rooted at the receiver that MarshalJSON assigns to
+func (g *graph) shadowPaths(s *gstruct) [][]string {
+	fd := g.methods(s.T.PkgPath())[s.T.Name()+".MarshalJSON"]
+	if fd == nil || fd.Body == nil {
+		return nil
+	}
+	recv := recvName(fd)
+	var out [][]string
+	ast.Inspect(fd.Body, func(n ast.Node) bool {
+		as, ok := n.(*ast.AssignStmt)
+		if !ok || as.Tok != token.ASSIGN {
+			return true
+		}
+		for _, l := range as.Lhs {
+			if p, ok := selPath(l, recv); ok && len(p) > 0 {
+				out = append(out, qualify(s.T, p))
+			}
+		}
+		return true
+	})
+	return out
+}
+
 func (g *graph) hooks() {
 	for _, s := range g.structs {
 		s.Hook, s.Unhook = "HkNone", "UkNone"
+		if s.HasM && inMosn(s.T) {
+			s.Shadow = g.shadowPaths(s)
+		}
 		curStruct = s.T
 		if s.HasM && inMosn(s.T) {
 			s.Hook = g.marshalHook(s)
